@@ -69,12 +69,15 @@ def call_blocks(fn, *suffixes):
 def err_blocks(fn):
     """blocks that produce an error result in _0: `?` residual conversion or an explicit Err aggregate"""
     out = set()
+    # in an inlined view (facts.inlined) the result places of the spliced helpers count as result places too: an error
+    # produced by a helper is an error exit of the whole function (the caller propagates it with `?`)
+    rl = set(fn.mir.get('ret_locals', [0]))
     for bi, b in fn.blocks():
         t = b['term']
-        if t['t'] == 'call' and t['dest']['l'] == 0 and callee_matches(callee_of(t), ['FromResidual::from_residual']):
+        if t['t'] == 'call' and t['dest']['l'] in rl and callee_matches(callee_of(t), ['FromResidual::from_residual']):
             out.add(bi)
         for s in b['stmts']:
-            if s['s'] == 'assign' and s['place']['l'] == 0 and not s['place']['proj']:
+            if s['s'] == 'assign' and s['place']['l'] in rl and not s['place']['proj']:
                 rv = s['rv']
                 if rv['r'] == 'aggr' and rv.get('variant') == 'Err':
                     out.add(bi)
